@@ -2,6 +2,7 @@ import TRV.Model.Alloc
 import TRV.Model.Link
 import TRV.Model.Classify
 import TRV.Model.Drivers
+import TRV.Model.Wire
 import TRV.Generated.LogicPackets
 import TRV.Generated.LogicIcmp
 import TRV.Proofs.BeNat
@@ -161,6 +162,90 @@ theorem tie_parseUDPFirstBytes (p : Bytes) :
     simp [LogicPackets.ParseUDPFirstBytes.run, Drv.quotedPorts, hl, hlI, ha, hb, e0, e2, R.okAt, R.get]
     try (intro sp dp h1 h2; omega)
 
+/-- the atoms of `GetICMPInfo` read off the model's decoders of the quoted header -/
+def infoAtoms (lc : Int) (q4 : Option Wire.IP4) (emb : Bool) (q6 : Option Wire.IP6) (embBytes : Bytes) :
+    LogicPackets.GetICMPInfo.Atoms :=
+  { «p.GetIPPair().1 == nil» := true
+    «p.GetTransportLayer()» := lc
+    «layers.LayerTypeICMPv4» := 1
+    «layers.LayerTypeICMPv6» := 2
+    «(&zero(github.com/google/gopacket/layers.IPv4)).DecodeFromBytes(p.ICMP4.Payload, gopacket.NilDecodeFeedback) == nil» := q4.isSome
+    «zero(github.com/google/gopacket/layers.IPv4).Id» := (q4.map (·.id)).getD 0
+    «zero(github.com/google/gopacket/layers.IPv4).Protocol» := (q4.map (·.proto)).getD 0
+    «slices.Clone(zero(github.com/google/gopacket/layers.IPv4).Payload)» := (q4.map (·.payload)).getD []
+    «extractEmbeddedIPv6(p.ICMP6.Payload).0» := embBytes
+    «extractEmbeddedIPv6(p.ICMP6.Payload).1 == nil» := emb
+    «(&zero(github.com/google/gopacket/layers.IPv6)).DecodeFromBytes(extractEmbeddedIPv6(p.ICMP6.Payload).0, gopacket.NilDecodeFeedback) == nil» := q6.isSome
+    «zero(github.com/google/gopacket/layers.IPv6).NextHeader» := (q6.map (·.nextHeader)).getD 0
+    «zero(github.com/google/gopacket/layers.IPv6).Length» := (q6.map (·.len)).getD 0
+    «slices.Clone(zero(github.com/google/gopacket/layers.IPv6).Payload)» := (q6.map (·.payload)).getD [] }
+
+/-- `GetICMPInfo`, ICMPv4 arm: it succeeds exactly when the model's `icmpInfo4` does, the wrapped
+    identifier is the quoted header's IP id and the wrapped protocol its protocol field -/
+theorem tie_getICMPInfo4 (i : Wire.ICMP4) :
+    let r := LogicPackets.GetICMPInfo.run (infoAtoms 1 (Wire.ip4 i.payload) false none [])
+    r.okAt "1" = (Wire.icmpInfo4 i).isSome ∧
+    (∀ info, Wire.icmpInfo4 i = some info →
+      r.get "0.WrappedPacketID" = some (V.int info.wrappedId) ∧ r.get "0.WrappedProtocol" = some (V.int info.proto)) := by
+  unfold Wire.icmpInfo4
+  cases h : Wire.ip4 i.payload <;> simp [LogicPackets.GetICMPInfo.run, infoAtoms, R.okAt, R.get]
+  try (intro info hi; subst hi; simp)
+
+/-- `GetICMPInfo`, ICMPv6 arm: embedded-header extraction, then the quoted IPv6 header; the wrapped
+    identifier is the quoted header's LENGTH FIELD for a quoted UDP datagram and 0 otherwise (not the
+    number of quoted octets actually present), the wrapped protocol its next-header field -/
+theorem tie_getICMPInfo6 (i : Wire.ICMP6) :
+    let emb := match u8 i.payload 4 with | some b => decide (b / 16 = 6) | none => false
+    let r := LogicPackets.GetICMPInfo.run (infoAtoms 2 none emb (if emb then Wire.ip6 (i.payload.drop 4) else none) (i.payload.drop 4))
+    r.okAt "1" = (Wire.icmpInfo6 i).isSome ∧
+    (∀ info, Wire.icmpInfo6 i = some info →
+      r.get "0.WrappedPacketID" = some (V.int info.wrappedId) ∧ r.get "0.WrappedProtocol" = some (V.int info.proto)) := by
+  unfold Wire.icmpInfo6
+  cases hb : u8 i.payload 4 with
+  | none => simp [LogicPackets.GetICMPInfo.run, infoAtoms, R.okAt, R.get]
+  | some b =>
+    by_cases h6 : b / 16 = 6
+    · cases hq : Wire.ip6 (i.payload.drop 4) with
+      | none => simp [LogicPackets.GetICMPInfo.run, infoAtoms, R.okAt, R.get, h6]
+      | some q =>
+        by_cases h17 : q.nextHeader = 17 <;>
+          simp [LogicPackets.GetICMPInfo.run, infoAtoms, R.okAt, R.get, h6, h17]
+        all_goals try (intro info hi; subst hi; simp [h17])
+    · simp [LogicPackets.GetICMPInfo.run, infoAtoms, R.okAt, R.get, h6]
+
+/-- `getParser`: on a non-empty buffer the version nibble selects the IPv4 or the IPv6 parser, any
+    other value is a (retryable) bad packet — the dispatch at the top of the model's `Wire.parse` -/
+theorem tie_getParser (buf : Bytes) (b0 : Nat) (h : u8 buf 0 = some b0) :
+    let r := LogicPackets.getParser.run { «buffer» := buf, «buffer[0] >> 4» := b0 / 16 }
+    (r.get "0" = some (V.ref "p.parserv4") ↔ b0 / 16 = 4) ∧
+    (r.get "0" = some (V.ref "p.parserv6") ↔ b0 / 16 = 6) ∧
+    (r.get "1" = some (V.err "common.BadPacketError") ↔ (b0 / 16 ≠ 4 ∧ b0 / 16 ≠ 6)) := by
+  have hl : ¬ (((buf.length : Nat) : Int) < 1) := by
+    unfold u8 at h
+    rcases Nat.lt_or_ge 0 buf.length with h' | h'
+    · omega
+    · have : buf.length = 0 := by omega
+      simp [List.length_eq_zero_iff.mp this] at h
+  by_cases h4 : b0 / 16 = 4 <;> by_cases h6 : b0 / 16 = 6 <;>
+    simp [LogicPackets.getParser.run, R.get, hl, h4, h6] <;> omega
+
+/-- every exit of `FrameParser.Parse`: success, the error `getParser` returned (handed on unchanged),
+    the ignored-layer sentinel or a `BadPacketError` — never a fresh non-retryable error -/
+theorem tie_parse_exits (a : LogicPackets.Parse.Atoms) :
+    let r := LogicPackets.Parse.run a
+    r.get "0" = some V.nil ∨ r.get "0" = some (V.err "p.getParser(buffer).1") ∨
+    r.get "0" = some (V.err "ignoredLayerErr") ∨ r.get "0" = some (V.err "common.BadPacketError") := by
+  unfold LogicPackets.Parse.run
+  (repeat' split) <;> simp [R.get]
+
+theorem tie_ignoredLayerErr_retryable :
+    (LogicPackets.sentinels.find? (·.1 = "ignoredLayerErr")).map (·.2) = some "common.ReceiveProbeNoPktError" := by decide
+
+#print axioms tie_getICMPInfo4
+#print axioms tie_getICMPInfo6
+#print axioms tie_getParser
+#print axioms tie_parse_exits
+#print axioms tie_ignoredLayerErr_retryable
 #print axioms tie_parseTCPFirstBytes
 #print axioms tie_parseUDPFirstBytes
 #print axioms tie_allocPacketID
